@@ -348,7 +348,7 @@ func (l *loader) loadMessage(pMsg *acmelibv1.Message, bus *Bus) (*Message, error
 
 	sigMap := l.loadSignalPayload(pMsg.Payload)
 	for _, pSig := range pMsg.Signals {
-		sig, err := l.loadSignal(pSig)
+		sig, err := l.loadSignal(pSig, int(pMsg.SizeByte)*8)
 		if err != nil {
 			return nil, err
 		}
@@ -422,7 +422,8 @@ func (l *loader) loadMessage(pMsg *acmelibv1.Message, bus *Bus) (*Message, error
 	return msg, nil
 }
 
-func (l *loader) loadSignal(pSig *acmelibv1.Signal) (Signal, error) {
+// loadSignal loads a signal that is going to be placed in a layout of sizeLimit bits.
+func (l *loader) loadSignal(pSig *acmelibv1.Signal, sizeLimit int) (Signal, error) {
 	var kind SignalKind
 	switch pSig.Kind {
 	case acmelibv1.SignalKind_SIGNAL_KIND_STANDARD:
@@ -474,7 +475,7 @@ func (l *loader) loadSignal(pSig *acmelibv1.Signal) (Signal, error) {
 			}
 		}
 
-		muxSig, err := l.loadMultiplexerSignal(baseSig, tmpPSig.Multiplexer)
+		muxSig, err := l.loadMultiplexerSignal(baseSig, tmpPSig.Multiplexer, sizeLimit)
 		if err != nil {
 			return nil, err
 		}
@@ -553,7 +554,23 @@ func (l *loader) loadEnumSignal(baseSig *signal, pEnumSig *acmelibv1.EnumSignal)
 	return newEnumSignalFromBase(baseSig, sigEnum)
 }
 
-func (l *loader) loadMultiplexerSignal(baseSig *signal, pMuxSig *acmelibv1.MultiplexerSignal) (*MultiplexerSignal, error) {
+func (l *loader) loadMultiplexerSignal(baseSig *signal, pMuxSig *acmelibv1.MultiplexerSignal, sizeLimit int) (*MultiplexerSignal, error) {
+	// one layout per group is allocated: the counts are checked against
+	// what the file holds and against the layout the signal goes into
+	if int(pMuxSig.GroupSize) > sizeLimit {
+		return nil, &SignalSizeError{
+			Size: int(pMuxSig.GroupSize),
+			Err:  ErrTooBig,
+		}
+	}
+
+	if int(pMuxSig.GroupCount) != len(pMuxSig.Groups) {
+		return nil, &GroupIDError{
+			GroupID: len(pMuxSig.Groups),
+			Err:     ErrOutOfBounds,
+		}
+	}
+
 	muxSig, err := newMultiplexerSignalFromBase(baseSig, int(pMuxSig.GroupCount), int(pMuxSig.GroupSize))
 	if err != nil {
 		return nil, err
@@ -567,7 +584,7 @@ func (l *loader) loadMultiplexerSignal(baseSig *signal, pMuxSig *acmelibv1.Multi
 			continue
 		}
 
-		sig, err := l.loadSignal(pMuxedSig)
+		sig, err := l.loadSignal(pMuxedSig, int(pMuxSig.GroupSize))
 		if err != nil {
 			return nil, err
 		}
